@@ -819,6 +819,70 @@ let suite_stage t v =
   v.cls <- (if !reannounce then "F" else "D");
   v.nontrivial <- (match !last_snap with Some s -> s.sfinals <> [] || s.sfiles <> [] | None -> false)
 
+
+(* ============================ suite T : send loop (C08) ====================== *)
+let suite_send t v =
+  let np = ni t in
+  let ne = ni t in
+  let evs = times ne (fun () ->
+    match next t with
+    | "X" -> let n = ni t in let ok = nb t in `X (n, ok)
+    | "R" -> let n = ni t in let ok = nb t in `R (n, ok)
+    | "C" -> let k = ni t in `C (times k (fun () -> ni t))
+    | s -> raise (Malformed ("send ev " ^ s))) in
+  expect t "=";
+  let rd () = let k = ni t in times k (fun () -> let l = ni t in times l (fun () -> ni t)) in
+  let ireq = rd () in
+  let ifwd = rd () in
+  let mevs = List.map (function
+    | `X (n, ok) -> M.ETx (nat_of_int n, ok)
+    | `R (n, ok) -> M.ERec (nat_of_int n, ok)
+    | `C ids -> M.EChanged (List.map z_of_int ids)) evs in
+  let ps = List.init np z_of_int in
+  let r = M.run_send ps mevs in
+  let ints l = List.map (List.map int_of_z) l in
+  if ints r.M.requests <> ireq then diff v "requests";
+  if ints r.M.forwarded <> ifwd then diff v "forwarded";
+  (* ---- oracles on the implementation's behaviour ---- *)
+  let changed = List.concat (List.filter_map (function `C ids -> Some ids | _ -> None) evs) in
+  (* reported count for the i-th request *)
+  let rec reported evs = match evs with
+    | `X (n, true) :: r -> `Ok n :: reported r
+    | `X (n, false) :: r ->
+        if n > 0 then `Fail n :: reported r
+        else
+          let rec skip = function
+            | `R (k, true) :: r' -> (Some k, r')
+            | `R (_, false) :: r' -> skip r'
+            | r' -> (None, r') in
+          (match skip r with (Some k, r') -> `Fail k :: reported r' | (None, r') -> `Fail 0 :: reported r')
+    | _ :: r -> reported r
+    | [] -> [] in
+  let reps = reported evs in
+  let rec firstn n l = if n <= 0 then [] else match l with [] -> [] | x :: r -> x :: firstn (n - 1) r in
+  (* expected forwarded groups, from the implementation's own requests and the reported counts *)
+  let expected = List.concat (List.mapi (fun i req ->
+    match (try List.nth reps i with _ -> `Ok (List.length req)) with
+    | `Ok _ -> [req]
+    | `Fail k -> if k <= 0 then [] else if k >= List.length req then [req] else [firstn k req]) ireq) in
+  if expected <> ifwd then oracle v "forwarded_differs_from_reported_head" (ints r.M.forwarded = ifwd);
+  (* a part that was acknowledged (forwarded) must not be transmitted again *)
+  let rec resent reqs fwds i = match reqs with
+    | [] -> false
+    | req :: rest ->
+        let acked_before = List.concat (firstn (List.length (List.filter (fun x -> x) (List.mapi (fun j _ -> j < i &&
+            (match (try List.nth reps j with _ -> `Ok 0) with `Fail k -> k > 0 | `Ok _ -> true)) ireq))) fwds) in
+        List.exists (fun id -> List.mem id acked_before) req || resent rest fwds (i + 1) in
+  if resent ireq ifwd 0 then oracle v "resent_acknowledged_part" false;
+  (* nothing abandoned, nothing duplicated *)
+  let all_fwd = List.concat ifwd in
+  List.iter (fun id ->
+    let c = List.length (List.filter (( = ) id) all_fwd) in
+    if c > 1 then oracle v "part_forwarded_twice" false;
+    if c = 0 && not (List.mem id changed) then oracle v "part_abandoned" false) (List.init np (fun i -> i));
+  v.cls <- "D";
+  v.nontrivial <- List.length ireq >= 2
+
 (* ============================ dispatch ====================================== *)
 let run_line line =
   let t = mk line in
@@ -830,6 +894,7 @@ let run_line line =
       | "Q" -> suite_queue t v
       | "L" -> suite_log t v
       | "S" -> suite_stage t v
+      | "T" -> suite_send t v
       | "LC" -> suite_log_conc t v
       | s -> raise (Malformed ("unknown suite " ^ s)))
    with
